@@ -43,14 +43,15 @@ def _classify(script, cmds):
     out = []
     for c in cmds:
         cls = c["cls"]
-        if c["tool"] == "cp" and c["args"] and c["args"][0].endswith("data-ANALYSIS/ANALYSIS.root"):
+        if c["tool"] == "cp" and c["args"] and c["args"][0].endswith(("data-ANALYSIS/ANALYSIS.root", "temp-output.root")):
             cls = "copy"
         out.append(cls)
     return out
 
 
 def _replay(args):
-    script, pkg, seq, fault_at, work, tag = args
+    script, pkg, seq, fault_at, work, tag = args[:6]
+    late = len(args) > 6 and args[6]
     base = os.path.join(work, tag)
     os.makedirs(base)
     try:
@@ -58,12 +59,12 @@ def _replay(args):
         recs = []
         for i, inv in enumerate(seq):
             last = i == len(seq) - 1
-            o = sandbox.invoke(root, _argv(inv), str(i + 1), fault_at if last else 0)
+            o = sandbox.invoke(root, _argv(inv), str(i + 1), fault_at if last else 0, late=late)
             classes = _classify(script, o["commands"])
             cls = "none"
             if last and fault_at:
                 cls = classes[fault_at - 1] if fault_at <= len(classes) else "notreached"
-            recs.append({"kind": inv["kind"], "d": inv["d"], "o": inv["o"], "fault_at": fault_at if last else 0, "cls": cls,
+            recs.append({"kind": inv["kind"], "d": inv["d"], "o": inv["o"], "fault_at": fault_at if last else 0, "cls": cls, "late": bool(late and last),
                          "exit": o["exit"], "nsteps": len(o["commands"]), "classes": classes,
                          "tools": [c["tool"] for c in o["commands"]],
                          "dests": [{"path": p, "run": v["run"], "inputs": v["inputs"], "converted": v["converted"], "ident": v["ident"]}
@@ -117,6 +118,9 @@ def run(tier, only=None):
                 continue
             for k in range(1, last["nsteps"] + 1):
                 fjobs.append((j[0], j[1], j[2], k, work, "%s_k%d" % (j[5], k)))
+                if last["classes"][k - 1] in ("job", "convert"):
+                    # the same step failing LATE: the tool has written its output (a partial file) and then dies
+                    fjobs.append((j[0], j[1], j[2], k, work, "%s_k%dl" % (j[5], k), True))
         faulted = pool.map(_replay, fjobs, chunksize=4)
     traces = clean + faulted
     tf = os.path.join(work, "trace.json")
@@ -131,7 +135,7 @@ def run(tier, only=None):
         r = t["invs"][pos - 1]
         hist = ";".join("%s/%s/%s" % (x["kind"], x["d"] or "-", x["o"]) for x in t["invs"][:pos])
         tool = r["tools"][r["fault_at"] - 1] if r["fault_at"] and r["fault_at"] <= len(r["tools"]) else "-"
-        key = "%s:%s:%s:fault=%s/%s" % (clause, t["script"], hist, r["cls"], tool)
+        key = "%s:%s:%s:fault=%s/%s%s" % (clause, t["script"], hist, r["cls"], tool, "(late)" if r.get("late") else "")
         rep.fail(key, {"clause": clause, "script": t["script"], "sequence": t["invs"][:pos], "position": pos})
     by_cls = {}
     for t in faulted:
@@ -168,7 +172,7 @@ def replay(path):
     pk = _packages(work)
     seq = [{"kind": x["kind"], "d": x["d"], "o": x["o"]} for x in r["sequence"]]
     k = r["sequence"][-1]["fault_at"]
-    t = _replay((r["script"], pk[r["script"]], seq, k, work, "replay"))
+    t = _replay((r["script"], pk[r["script"]], seq, k, work, "replay", bool(r["sequence"][-1].get("late"))))
     tf = os.path.join(work, "t.json")
     json.dump([{"script": t["script"], "invs": [{kk: x[kk] for kk in ("kind", "d", "o", "fault_at", "cls", "exit", "dests")} for x in t["invs"]]}], open(tf, "w"))
     val = common.run_tlc("RunnerTrace", "RunnerTrace.cfg", env={"TRACE_FILE": tf})
